@@ -1451,6 +1451,9 @@ func (q *seqRun) runPrompt() {
 			q.inconclusive(fmt.Sprintf("subscriber A did not log %d required messages within %v although its workers are alive: %v", len(q.missing(q.A)), waitBound, grepShort(dump, q.A.workerFn)))
 			return
 		}
+		if q.bigHeadersOnly(q.A, st) {
+			return
+		}
 		miss := q.missing(q.A)
 		if miss[0].Step < first && (len(miss) <= first || st == "lost") {
 			var steps []int
@@ -1662,6 +1665,21 @@ func (q *seqRun) runBackpressure() {
 	q.count("sequences_completed", 1)
 }
 
+// bigHeadersOnly reports the missing messages of x if every one of them
+// carried more than 64 KiB of headers.
+func (q *seqRun) bigHeadersOnly(x *subscriber, st string) bool {
+	miss := q.missing(x)
+	for _, m := range miss {
+		if m.HdrBytes <= 64*1024 {
+			return false
+		}
+	}
+	q.vio("valid-message-with-large-headers-not-delivered", fmt.Sprintf("subscriber %s never got %d valid message(s) whose FContext request headers total more than 64 KiB (first: %d bytes; the frame is far below the transport's size limit); every other message was delivered", x.name, len(miss), miss[0].HdrBytes),
+		map[string]interface{}{"subscriber": x.name, "status": st, "missing_count": len(miss), "first_missing_step": miss[0].Step, "first_missing_cid": miss[0].Cid, "first_missing_header_bytes": miss[0].HdrBytes})
+	q.aborted = true
+	return true
+}
+
 // settleSub settles one subscription of a multi-topic sequence and reports.
 func (q *seqRun) settleSub(x *subscriber, ph int, label, setting string) bool {
 	st, dump := q.settle(x, ph)
@@ -1681,6 +1699,9 @@ func (q *seqRun) settleSub(x *subscriber, ph int, label, setting string) bool {
 		q.vio("subscriber-topic-differs-from-publisher-topic:scope="+scopeName(x.op), fmt.Sprintf("the emitted subscriber of scope %s subscribed to %q while the emitted publisher publishes on %q: the handler is never invoked (%d of %d valid messages missing, no error anywhere)", scopeName(x.op), x.sub.Topic(), x.topic, len(miss), len(q.required(x))),
 			map[string]interface{}{"subscription": x.name, "publisher_topic": x.topic, "subscription_topic": x.sub.Topic(), "status": st})
 		q.aborted = true
+		return false
+	}
+	if q.bigHeadersOnly(x, st) {
 		return false
 	}
 	q.vio(label+":not-delivered:"+st, fmt.Sprintf("%s, subscription %s never got %d of %d valid messages published on its own topic (%s)", setting, x.name, len(miss), len(q.required(x)), st),
